@@ -93,7 +93,7 @@ def correspondence(res, tier, seed):
                 continue
             if em == "step_function" and im in DISCRETE:
                 p = Fraction(sum(1 for x in xs if x <= v), len(xs))
-                if (DISCRETE[im](len(ys), p)).denominator == 1 and p not in (0, 1) and (p.denominator & (p.denominator - 1)) != 0:
+                if (DISCRETE[im](len(ys), p)).denominator == 1 and p not in (0, 1):
                     res.count("skipped-at-float-discontinuity"); continue
             if em == "linear_interpolation" and im in DISCRETE:
                 res.count("skipped-lin-discrete"); continue
